@@ -1,5 +1,6 @@
 import XtModel.Model.Wire
 import XtModel.Model.Encoding
+import XtModel.Model.Chunker
 import XtModel.Model.TomlOrder
 
 /-!
@@ -101,10 +102,72 @@ def tomlorder (fs : List String) : String :=
     | _ => "bad-case"
   | _ => "bad-case"
 
+/-! ### chunker: `chunker <events> <stream-hex> [debug]`, `guards <size> <reported> <written>` -/
+def kindOfTok : String → Option Chunker.Kind
+  | "NO" => some .noEvent | "SS" => some .streamStart | "SE" => some .streamEnd
+  | "DS" => some .docStart | "DE" => some .docEnd | "AL" => some .alias | "SC" => some .scalar
+  | "QS" => some .seqStart | "QE" => some .seqEnd | "MS" => some .mapStart | "ME" => some .mapEnd
+  | _ => none
+
+def siteName : Chunker.Site → String
+  | .trimSub => "trimSub" | .trimTryFrom => "trimTryFrom" | .drainRange => "drainRange"
+  | .takeSub => "takeSub" | .takeTryFrom => "takeTryFrom" | .splitOffRange => "splitOffRange"
+  | .fromUtf8 => "fromUtf8" | .readSlice => "readSlice"
+
+/-- `K:start:stop[:readOff]`; without the fourth field the whole stream has
+been read when the event arrives. -/
+def parseEv (total : Nat) (tok : String) : Option Chunker.Ev :=
+  match tok.splitOn ":" with
+  | [k, a, b] => do some ⟨← kindOfTok k, ← a.toNat?, ← b.toNat?, total⟩
+  | [k, a, b, r] => do some ⟨← kindOfTok k, ← a.toNat?, ← b.toNat?, ← r.toNat?⟩
+  | _ => none
+
+def parseEvents (total : Nat) (s : String) : Option (List Chunker.Ev × Bool) :=
+  if s = "-" then some ([], false) else
+  let toks := s.splitOn ","
+  let (toks, err) := if toks.getLast? = some "ERR" then (toks.dropLast, true) else (toks, false)
+  (toks.mapM (parseEv total)).map fun evs => (evs, err)
+
+def chunkerAnswer (r : Chunker.Result) : String :=
+  let docs := r.emits.map fun e =>
+    "doc:" ++ toHex e.doc.content ++ ":" ++ (if e.doc.isCollection then "c" else "n")
+  let fin := match r.fin with
+    | .done => "end" | .err => "err" | .incomplete => "incomplete"
+    | .panic s => "panic:" ++ siteName s
+  " ".intercalate (docs ++ [fin])
+
+def chunker (fs : List String) : String :=
+  match fs with
+  | "chunker" :: evs :: hex :: rest =>
+    match parseHex hex with
+    | some stream =>
+      match parseEvents stream.length evs with
+      | some (evs, err) => chunkerAnswer (Chunker.chunks (rest = ["debug"]) stream evs err)
+      | none => "bad-case"
+    | none => "bad-case"
+  | ["guards", size, reported, written] =>
+    match size.toNat?, reported.toNat?, written.toNat? with
+    | some size, some reported, some written =>
+      let res := Chunker.ReadRes.ok reported (List.replicate written 0x61)
+      let h := Chunker.readHandler false size none res
+      let hTok := match h.copyLen, h.stash with
+        | some _, _ => "handler:accept"
+        | none, some .misbehaving => "handler:misbehaving"
+        | none, _ => "handler:failure"
+      let cTok := match Chunker.handlerOverChunkReader size [] none ⟨[], 0⟩ res with
+        | .panic s => "chunker:panic:" ++ siteName s
+        | .ok (h, _) => match h.copyLen with
+          | some _ => "chunker:accept"
+          | none => "chunker:failure"
+      hTok ++ " " ++ cTok
+    | _, _, _ => "bad-case"
+  | _ => "bad-case"
+
 def answer (fs : List String) : String :=
   match fs with
   | "encdetect" :: _ | "reencode" :: _ | "reencstream" :: _ => encoding fs
   | "tomlorder" :: _ => tomlorder fs
+  | "chunker" :: _ | "guards" :: _ => chunker fs
   | _ => "bad-engine"
 
 partial def loop (h : IO.FS.Stream) (out : IO.FS.Stream) : IO Unit := do
